@@ -315,4 +315,607 @@ example : ∃ bs s, BoltInv bs ∧ s.phase = .started ∧ s.sent = [] ∧ rounds
     ⟨⟨by decide, by decide, trivial⟩, by intro p hp; simp at hp; rcases hp with rfl | rfl | rfl <;> rfl⟩
   exact ⟨_, { frm := 2, phase := .started }, hb, rfl, rfl, by decide, c11_scan_exact _ hb _ rfl rfl _⟩
 
+/-! ### the live phase -/
+
+/-- the beacons a run appends (round 0 is never dispatched) -/
+def putsIn (es : List Ev) : List Beacon :=
+  es.filterMap fun | .put b => if b.round ≠ 0 then some b else none | _ => none
+
+def queueBeacons (q : List Job) : List Beacon := q.filterMap fun | .beacon b => some b | .close => none
+
+/-- steps that do not take the stream's callback away or end the stream -/
+def Ev.quiet : Ev → Bool
+  | .replaced | .detached | .cancel | .sendFail => false
+  | _ => true
+
+def LiveInv (s : Strm) : Prop :=
+  (match s.phase with | .live => True | _ => False) ∧ s.attached = true ∧ ∀ j ∈ s.queue, j ≠ Job.close
+
+private theorem queueBeacons_append (a b : List Job) : queueBeacons (a ++ b) = queueBeacons a ++ queueBeacons b := by
+  simp [queueBeacons, List.filterMap_append]
+
+private theorem live_step (x : Sys) (e : Ev) (h : LiveInv x.s) (hq : e.quiet = true) :
+    LiveInv (Sys.step .asIs x e).s ∧
+    (Sys.step .asIs x e).s.sent ++ queueBeacons (Sys.step .asIs x e).s.queue = x.s.sent ++ queueBeacons x.s.queue ++ putsIn [e] := by
+  obtain ⟨hp, ha, hc⟩ := h
+  have hlive : x.s.phase = .live := by
+    cases hph : x.s.phase <;> simp [hph] at hp ⊢
+  cases e with
+  | put b =>
+    simp only [Sys.step, Strm.onPut, ha, Bool.true_and]
+    by_cases hb : b.round = 0
+    · simp [hb, putsIn, LiveInv, hlive, ha]; exact hc
+    · simp only [hb, ne_eq, not_false_eq_true, decide_true, if_true]
+      refine ⟨⟨by simp [hlive], rfl, ?_⟩, ?_⟩
+      · intro j hj
+        simp only [List.mem_append, List.mem_singleton] at hj
+        rcases hj with h1 | h1
+        · exact hc j h1
+        · subst h1; simp
+      · simp [queueBeacons_append, putsIn, hb, queueBeacons]
+  | start => simp [Sys.step, Strm.start, hlive, putsIn, LiveInv, ha]; exact hc
+  | scanOpen => simp [Sys.step, Strm.scanOpen, hlive, putsIn, LiveInv, ha]; exact hc
+  | scanNext => simp [Sys.step, Strm.scanNext, hlive, putsIn, LiveInv, ha]; exact hc
+  | register => simp [Sys.step, Strm.register, hlive, putsIn, LiveInv, ha]; exact hc
+  | deliver =>
+    simp only [Sys.step, Strm.deliver, hlive]
+    cases hqu : x.s.queue with
+    | nil => simp [putsIn, LiveInv, hlive, ha, hqu, queueBeacons]
+    | cons j q =>
+      cases j with
+      | close => exact absurd rfl (hc .close (by simp [hqu]))
+      | beacon b =>
+        simp only [emit]
+        refine ⟨⟨by simp [hlive], ha, ?_⟩, ?_⟩
+        · intro j hj; exact hc j (by simp [hqu]; exact Or.inr hj)
+        · simp [putsIn, queueBeacons]
+  | replaced => cases hq
+  | detached => cases hq
+  | cancel => cases hq
+  | sendFail => cases hq
+
+private theorem putsIn_cons (e : Ev) (es : List Ev) : putsIn (e :: es) = putsIn [e] ++ putsIn es := by
+  simp [putsIn, List.filterMap_cons]
+  cases e <;> simp
+  split <;> simp
+
+private theorem live_run (x : Sys) (es : List Ev) (h : LiveInv x.s) (hq : ∀ e ∈ es, e.quiet = true) :
+    LiveInv (Sys.run .asIs x es).s ∧
+    (Sys.run .asIs x es).s.sent ++ queueBeacons (Sys.run .asIs x es).s.queue = x.s.sent ++ queueBeacons x.s.queue ++ putsIn es := by
+  induction es generalizing x with
+  | nil => simp [Sys.run, putsIn, h]
+  | cons e es ih =>
+    have h1 := live_step x e h (hq e (by simp))
+    have h2 := ih (Sys.step .asIs x e) h1.1 (fun e' he' => hq e' (List.mem_cons_of_mem _ he'))
+    refine ⟨h2.1, ?_⟩
+    simp only [Sys.run, List.foldl_cons] at h2 ⊢
+    rw [h2.2, h1.2, putsIn_cons e es]
+    simp [List.append_assoc]
+
+/-- **C11, live phase (code as it is).** From `AddCallback` on, as long as nobody takes the callback away and the stream
+is not ended, what the stream has sent plus what is still queued for it is exactly: what it had sent before, followed by the
+beacons appended since, in append order, each once. -/
+theorem c11_live_fifo (x : Sys) (hx : match x.s.phase with | .scanned => True | _ => False) (es : List Ev)
+    (hq : ∀ e ∈ es, e.quiet = true) :
+    let y := Sys.run .asIs (Sys.step .asIs x .register) es
+    y.s.sent ++ queueBeacons y.s.queue = x.s.sent ++ putsIn es ∧ LiveInv y.s := by
+  have hsc : x.s.phase = .scanned := by cases hph : x.s.phase <;> simp [hph] at hx ⊢
+  have h0 : LiveInv (Sys.step .asIs x .register).s := by
+    simp [Sys.step, Strm.register, hsc, LiveInv]
+  have := live_run _ es h0 hq
+  refine ⟨?_, this.1⟩
+  rw [this.2]
+  simp [Sys.step, Strm.register, hsc, queueBeacons]
+
+
+example :
+    let y := Sys.run .asIs (Sys.step .asIs ⟨boltOf 2, { frm := 2, phase := .scanned, sent := [tb 2] }⟩ .register)
+      [.put (tb 3), .put (tb 4), .deliver, .put (tb 5)];
+    roundsOf y.s.sent = [2, 3] ∧ jobRounds y.s.queue = [4, 5] := by decide
+
+/-! ### no append between ScanOpen and Register ⇒ exact -/
+
+private theorem insert_above {α : Type} (k : Nat) (v : α) (l : List (Nat × α)) (h : ∀ p ∈ l, p.1 < k) :
+    Store.insert k v l = l ++ [(k, v)] := by
+  induction l with
+  | nil => rfl
+  | cons a t ih =>
+    obtain ⟨k', v'⟩ := a
+    have h1 : k' < k := h (k', v') (by simp)
+    have h2 : ¬ k < k' := by omega
+    have h3 : ¬ k = k' := by omega
+    simp only [Store.insert, h2, h3, if_false, List.cons_append]
+    rw [ih (fun p hp => h p (List.mem_cons_of_mem _ hp))]
+
+/-- appends are chain-legal: each goes above the current head -/
+def legalFrom (hd : Nat) : List Ev → Prop
+  | [] => True
+  | .put b :: es => hd < b.round ∧ legalFrom b.round es
+  | _ :: es => legalFrom hd es
+
+private theorem scanOut_run (frm : Nat) (es : List Ev) : ∀ (hd : Nat) (bs : BoltState) (s : Strm),
+    (∀ p ∈ bs, p.1 ≤ hd) → frm ≤ hd → legalFrom hd es →
+    ∃ bs', (Sys.run .asIs ⟨.bolt bs, s⟩ es).store = .bolt bs' ∧ scanOut bs' frm = scanOut bs frm ++ putsIn es := by
+  induction es with
+  | nil => intro hd bs s _ _ _; exact ⟨bs, rfl, by simp [putsIn]⟩
+  | cons e es ih =>
+    intro hd bs s hmax hfrm hleg
+    cases e with
+    | put b =>
+      obtain ⟨hlt, hleg'⟩ := hleg
+      have habove : ∀ p ∈ bs, p.1 < b.round := fun p hp => Nat.lt_of_le_of_lt (hmax p hp) hlt
+      have hput : Bolt.put bs b = bs ++ [(b.round, b)] := insert_above _ _ _ habove
+      obtain ⟨bs', h1, h2⟩ := ih b.round (bs ++ [(b.round, b)]) (s.onPut b)
+        (by intro p hp; simp only [List.mem_append, List.mem_singleton] at hp
+            rcases hp with h | h
+            · exact Nat.le_of_lt (habove p h)
+            · subst h; exact Nat.le_refl _)
+        (by omega) hleg'
+      refine ⟨bs', ?_, ?_⟩
+      · simpa [Sys.run, Sys.step, Store.put, hput] using h1
+      · rw [h2, putsIn_cons]
+        have hb0 : b.round ≠ 0 := by omega
+        have hge : frm ≤ b.round := by omega
+        simp [scanOut, List.filter_append, hge, putsIn, hb0]
+    | start | scanOpen | scanNext | register | deliver | replaced | detached | cancel | sendFail =>
+      obtain ⟨bs', h1, h2⟩ := ih hd bs _ hmax hfrm hleg
+      exact ⟨bs', by simpa [Sys.run, Sys.step] using h1, by rw [h2, putsIn_cons]; simp [putsIn]⟩
+
+private theorem store_noput (es : List Ev) (hno : ∀ e ∈ es, (match e with | .put _ => false | _ => true) = true) (x : Sys) :
+    (Sys.run .asIs x es).store = x.store := by
+  induction es generalizing x with
+  | nil => rfl
+  | cons e es ih =>
+    have := hno e (by simp)
+    simp only [Sys.run, List.foldl_cons]
+    have h2 := ih (fun e' he' => hno e' (List.mem_cons_of_mem _ he')) (Sys.step .asIs x e)
+    simp only [Sys.run] at h2
+    rw [h2]
+    cases e <;> simp_all [Sys.step]
+
+/-- **C11, exactness under the hypothesis the proof forces (bolt, code as it is).** If no beacon is appended between the
+opening of the scan and `AddCallback` (`es1` has no append), nobody disturbs the stream, and later appends are chain-legal,
+then at every later moment what the stream has sent plus what is queued for it is exactly the list of ALL stored beacons with
+round ≥ r, in ascending order, each once (`scanOut` of the store as it is at that moment). Without the hypothesis this
+fails: `c11_gap_counterexample`. -/
+theorem c11_exact_partial (bs : BoltState) (hb : BoltInv bs) (hd : Nat) (hmax : ∀ p ∈ bs, p.1 ≤ hd) (s : Strm)
+    (hs : s.phase = .started) (hsent : s.sent = []) (hfrm : s.frm ≤ hd)
+    (es1 es2 : List Ev)
+    (hno : ∀ e ∈ es1, (match e with | .put _ => false | _ => true) = true)
+    (hscanned : match (Sys.run .asIs (Sys.step .asIs ⟨.bolt bs, s⟩ .scanOpen) es1).s.phase with | .scanned => True | _ => False)
+    (hq2 : ∀ e ∈ es2, e.quiet = true) (hleg : legalFrom hd es2) :
+    ∃ bs', (Sys.run .asIs (Sys.step .asIs (Sys.run .asIs (Sys.step .asIs ⟨.bolt bs, s⟩ .scanOpen) es1) .register) es2).store = .bolt bs' ∧
+      (Sys.run .asIs (Sys.step .asIs (Sys.run .asIs (Sys.step .asIs ⟨.bolt bs, s⟩ .scanOpen) es1) .register) es2).s.sent ++
+        queueBeacons (Sys.run .asIs (Sys.step .asIs (Sys.run .asIs (Sys.step .asIs ⟨.bolt bs, s⟩ .scanOpen) es1) .register) es2).s.queue
+        = scanOut bs' s.frm := by
+  have hA := c11_scan_exact bs hb s hs hsent es1
+  generalize hx1 : Sys.run .asIs (Sys.step .asIs ⟨.bolt bs, s⟩ .scanOpen) es1 = x1 at hA hscanned ⊢
+  have hst : x1.store = .bolt bs := by
+    rw [← hx1, store_noput es1 hno]; rfl
+  have hsc : x1.s.phase = .scanned := by cases hph : x1.s.phase <;> simp [hph] at hscanned ⊢
+  have hsent1 : x1.s.sent = scanOut bs s.frm := by simpa [ScanInv, hsc] using hA
+  have hB := (c11_live_fifo x1 hscanned es2 hq2).1
+  have hreg : Sys.step .asIs x1 .register = ⟨.bolt bs, (Sys.step .asIs x1 .register).s⟩ := by
+    cases x1; simp_all [Sys.step]
+  obtain ⟨bs', h1, h2⟩ := scanOut_run s.frm es2 hd bs (Sys.step .asIs x1 .register).s hmax hfrm hleg
+  refine ⟨bs', ?_, ?_⟩
+  · rw [hreg]; exact h1
+  · rw [hB, hsent1, h2]
+
+/-! ### the corrected variant -/
+
+/-- every entry of a bolt store is labelled with its own round (no order needed) -/
+def StoreLab : Store → Prop
+  | .bolt bs => ∀ p ∈ bs, p.2.round = p.1
+  | .mem _ => True
+
+private theorem mem_insert' {α : Type} {k : Nat} {v : α} {l : List (Nat × α)} {p : Nat × α}
+    (h : p ∈ Store.insert k v l) : p = (k, v) ∨ p ∈ l := by
+  induction l with
+  | nil => simp [Store.insert] at h; exact Or.inl h
+  | cons a t ih =>
+    obtain ⟨k', v'⟩ := a
+    simp only [Store.insert] at h
+    split at h
+    · rcases List.mem_cons.mp h with h | h
+      · exact Or.inl h
+      · exact Or.inr h
+    · split at h
+      · rcases List.mem_cons.mp h with h | h
+        · exact Or.inl h
+        · exact Or.inr (List.mem_cons_of_mem _ h)
+      · rcases List.mem_cons.mp h with h | h
+        · exact Or.inr (by rw [h]; simp)
+        · rcases ih h with h | h
+          · exact Or.inl h
+          · exact Or.inr (List.mem_cons_of_mem _ h)
+
+private theorem storeLab_put (st : Store) (b : Beacon) (h : StoreLab st) : StoreLab (st.put b) := by
+  cases st with
+  | mem ms => trivial
+  | bolt bs =>
+    intro p hp
+    rcases mem_insert' hp with rfl | hp
+    · rfl
+    · exact h p hp
+
+private theorem lookup_mem' {α : Type} {k : Nat} {v : α} {l : List (Nat × α)} (h : lookup k l = some v) : (k, v) ∈ l := by
+  induction l with
+  | nil => simp [lookup] at h
+  | cons a t ih =>
+    obtain ⟨k', v'⟩ := a
+    simp only [lookup] at h
+    split at h
+    · cases h; subst_vars; simp
+    · exact List.mem_cons_of_mem _ (ih h)
+
+private theorem get_label (st : Store) (h : StoreLab st) (r : Nat) (b : Beacon) (hg : st.get r = .ok b) : b.round = r := by
+  cases st with
+  | bolt bs =>
+    simp only [Store.get, Bolt.get] at hg
+    cases hl : lookup r bs with
+    | none => simp [hl] at hg
+    | some b' =>
+      simp [hl] at hg; subst hg
+      exact h _ (lookup_mem' hl)
+  | mem ms =>
+    simp only [Store.get, Mem.get] at hg
+    cases hf : ms.store.find? (·.round == r) with
+    | none => simp [hf] at hg
+    | some b' =>
+      simp [hf] at hg; subst hg
+      have := List.find?_some hf
+      simpa using this
+
+/-- rounds sent are a, a+1, a+2, …; with `next` the round after the last one -/
+def Run (a : Nat) (s : Strm) : Prop := roundsOf s.sent = List.range' a s.sent.length ∧ s.next = a + s.sent.length
+
+private theorem range'_snoc (a n : Nat) : List.range' a (n + 1) = List.range' a n ++ [a + n] := by
+  exact List.range'_1_concat
+
+private theorem run_snoc (a : Nat) (s : Strm) (b : Beacon) (h : Run a s) (hb : b.round = s.next) :
+    Run a { s with sent := s.sent ++ [b], next := s.next + 1 } := by
+  obtain ⟨h1, h2⟩ := h
+  constructor
+  · simp only [roundsOf, List.map_append, List.length_append, List.length_cons, List.length_nil] at h1 ⊢
+    rw [range'_snoc, ← h1]; simp [hb, h2]
+  · simp [h2]; omega
+
+/-- `fill`: either it ends the stream because a round is gone (what was sent is still a run), or it leaves everything
+but `sent`/`next` alone, the run stays a run, and with enough fuel `next` reaches `upTo` and never passes it -/
+private theorem fill_spec (st : Store) (hl : StoreLab st) (a : Nat) : ∀ (k : Nat) (s : Strm) (upTo : Nat), Run a s →
+    (Run a (fill st s k upTo) ∧ (fill st s k upTo).phase = s.phase ∧ (fill st s k upTo).frm = s.frm ∧
+      (fill st s k upTo).queue = s.queue ∧ (fill st s k upTo).attached = s.attached ∧
+      (upTo - s.next ≤ k → upTo ≤ (fill st s k upTo).next) ∧ (s.next ≤ upTo → (fill st s k upTo).next ≤ upTo) ∧
+      s.next ≤ (fill st s k upTo).next) ∨
+    (roundsOf (fill st s k upTo).sent = List.range' a (fill st s k upTo).sent.length ∧
+      (fill st s k upTo).phase = .done .storeError ∧ (fill st s k upTo).frm = s.frm) := by
+  intro k
+  induction k with
+  | zero =>
+    intro s upTo h
+    exact Or.inl ⟨h, rfl, rfl, rfl, rfl, by simp [fill]; omega, by simp [fill], by simp [fill]⟩
+  | succ k ih =>
+    intro s upTo h
+    simp only [fill]
+    split
+    · rename_i hlt
+      split
+      · rename_i b hg
+        have hb := get_label st hl _ _ hg
+        rcases ih { s with sent := s.sent ++ [b], next := s.next + 1 } upTo (run_snoc a s b h hb) with h1 | h1
+        · obtain ⟨r1, r2, r3, r4, r5, r6, r7, r8⟩ := h1
+          refine Or.inl ⟨r1, r2, r3, r4, r5, ?_, ?_, ?_⟩
+          · intro hk; apply r6; simp; omega
+          · intro _; apply r7; simp; omega
+          · simp at r8; omega
+        · exact Or.inr h1
+      · exact Or.inr ⟨h.1, rfl, rfl⟩
+    · rename_i hge
+      exact Or.inl ⟨h, rfl, rfl, rfl, rfl, by intro _; omega, by intro h'; exact h', Nat.le_refl _⟩
+
+/-- the invariant of the corrected variant -/
+def TrInv (s : Strm) : Prop :=
+  ∃ a, roundsOf s.sent = List.range' a s.sent.length ∧ (s.frm ≠ 0 → s.sent ≠ [] → a = s.frm) ∧
+    (match s.phase with
+     | .idle => s.sent = []
+     | .done _ => True
+     | _ => s.next = a + s.sent.length ∧ (s.frm ≠ 0 → a = s.frm))
+
+/-- `emit` on a stream in an active phase -/
+private theorem emit_tracked (st : Store) (hl : StoreLab st) (a : Nat) (s : Strm) (b : Beacon) (h : Run a s) (hf : s.frm ≠ 0 → a = s.frm) :
+    (Run a (emit .tracked st s b) ∧ (emit .tracked st s b).phase = s.phase ∧ (emit .tracked st s b).frm = s.frm) ∨
+    (roundsOf (emit .tracked st s b).sent = List.range' a (emit .tracked st s b).sent.length ∧
+      (emit .tracked st s b).phase = .done .storeError ∧ (emit .tracked st s b).frm = s.frm) := by
+  simp only [emit]
+  split
+  · exact Or.inl ⟨h, rfl, rfl⟩
+  · rename_i hge
+    rcases fill_spec st hl a (b.round - s.next) s b.round h with h1 | h1
+    · obtain ⟨r1, r2, r3, _, _, r6, r7, _⟩ := h1
+      have hn : (fill st s (b.round - s.next) b.round).next = b.round := by
+        have := r6 (Nat.le_refl _); have := r7 (by omega); omega
+      split
+      · rename_i hd
+        left; exact ⟨r1, r2, r3⟩
+      · left
+        have := run_snoc a _ b r1 hn.symm
+        rw [hn] at this
+        exact ⟨this, r2, r3⟩
+    · obtain ⟨r1, r2, r3⟩ := h1
+      have hd : isDone (fill st s (b.round - s.next) b.round).phase = true := by rw [r2]; rfl
+      simp only [hd, if_true]
+      exact Or.inr ⟨r1, r2, r3⟩
+
+def Phase.active : Phase → Bool
+  | .idle => false
+  | .done _ => false
+  | _ => true
+
+private theorem trInv_active {s : Strm} (h : TrInv s) (ha : s.phase.active = true) :
+    ∃ a, Run a s ∧ (s.frm ≠ 0 → a = s.frm) := by
+  obtain ⟨a, h1, _, h3⟩ := h
+  cases hp : s.phase <;> simp [hp, Phase.active] at ha h3 <;> exact ⟨a, ⟨h1, h3.1⟩, h3.2⟩
+
+private theorem trInv_of_run {s : Strm} (a : Nat) (h : Run a s) (hf : s.frm ≠ 0 → a = s.frm) (hp : s.phase.active = true) : TrInv s := by
+  refine ⟨a, h.1, fun h0 _ => hf h0, ?_⟩
+  cases hph : s.phase <;> simp [hph, Phase.active] at hp ⊢ <;> exact ⟨h.2, hf⟩
+
+private theorem trInv_of_done {s : Strm} (a : Nat) (h : roundsOf s.sent = List.range' a s.sent.length) (hf : s.frm ≠ 0 → a = s.frm)
+    (e : EndReason) (hp : s.phase = .done e) : TrInv s :=
+  ⟨a, h, fun h0 _ => hf h0, by simp [hp]⟩
+
+private theorem trInv_emit (st : Store) (hl : StoreLab st) (s : Strm) (b : Beacon) (a : Nat) (h : Run a s) (hf : s.frm ≠ 0 → a = s.frm)
+    (hp : s.phase.active = true) : TrInv (emit .tracked st s b) := by
+  rcases emit_tracked st hl a s b h hf with ⟨h1, h2, h3⟩ | ⟨h1, h2, h3⟩
+  · exact trInv_of_run a h1 (by rw [h3]; exact hf) (by rw [h2]; exact hp)
+  · exact trInv_of_done a h1 (by rw [h3]; exact hf) _ h2
+
+private theorem trInv_congr {s s' : Strm} (h : TrInv s) (h1 : s'.phase = s.phase) (h2 : s'.sent = s.sent) (h3 : s'.next = s.next)
+    (h4 : s'.frm = s.frm) : TrInv s' := by
+  unfold TrInv at h ⊢
+  rw [h1, h2, h3, h4]; exact h
+
+private theorem trInv_end {s s' : Strm} (h : TrInv s) (e : EndReason) (h1 : s'.phase = .done e) (h2 : s'.sent = s.sent)
+    (h4 : s'.frm = s.frm) : TrInv s' := by
+  obtain ⟨a, r1, r2, r3⟩ := h
+  refine ⟨a, by rw [h2]; exact r1, by rw [h2, h4]; exact r2, by simp [h1]⟩
+
+private theorem trInv_step (x : Sys) (hl : StoreLab x.store) (e : Ev) (h : TrInv x.s) :
+    TrInv (Sys.step .tracked x e).s ∧ StoreLab (Sys.step .tracked x e).store := by
+  cases e with
+  | put b =>
+    refine ⟨?_, storeLab_put _ _ hl⟩
+    simp only [Sys.step, Strm.onPut]
+    split
+    · exact trInv_congr h rfl rfl rfl rfl
+    · exact h
+  | start =>
+    refine ⟨?_, hl⟩
+    simp only [Sys.step, Strm.start]
+    split
+    · rename_i hp
+      have hs0 : x.s.sent = [] := by obtain ⟨_, _, _, h3⟩ := h; simpa [hp] using h3
+      split
+      · exact trInv_end h _ rfl rfl rfl
+      · rename_i l hlast
+        split
+        · exact trInv_end h _ rfl rfl rfl
+        · split
+          · rename_i h0
+            exact trInv_of_run (l.round + 1) ⟨by simp [roundsOf, hs0], by simp [hs0]⟩ (by intro hne; exact absurd h0 hne) rfl
+          · exact trInv_of_run x.s.frm ⟨by simp [roundsOf, hs0], by simp [hs0]⟩ (fun _ => rfl) rfl
+    · exact h
+  | scanOpen =>
+    refine ⟨?_, hl⟩
+    simp only [Sys.step, Strm.scanOpen]
+    split
+    · rename_i hp
+      obtain ⟨a, hr, hf⟩ := trInv_active h (by simp [hp, Phase.active])
+      split
+      · split
+        · exact trInv_emit _ hl _ _ a hr hf rfl
+        · exact trInv_of_run a hr hf rfl
+      · split
+        · exact trInv_emit _ hl _ _ a hr hf rfl
+        · exact trInv_of_run a hr hf rfl
+    · exact h
+  | scanNext =>
+    refine ⟨?_, hl⟩
+    simp only [Sys.step, Strm.scanNext]
+    split
+    · rename_i c hp
+      obtain ⟨a, hr, hf⟩ := trInv_active h (by simp [hp, Phase.active])
+      split
+      · exact trInv_emit _ hl _ _ a hr hf rfl
+      · exact trInv_of_run a hr hf rfl
+    · rename_i p hp
+      obtain ⟨a, hr, hf⟩ := trInv_active h (by simp [hp, Phase.active])
+      split
+      · split
+        · exact trInv_emit _ hl _ _ a hr hf rfl
+        · exact trInv_of_run a hr hf rfl
+      · exact trInv_of_run a hr hf rfl
+    · exact h
+  | register =>
+    refine ⟨?_, hl⟩
+    simp only [Sys.step, Strm.register]
+    split
+    · rename_i hp
+      obtain ⟨a, hr, hf⟩ := trInv_active h (by simp [hp, Phase.active])
+      have hr1 : Run a { x.s with phase := .live, attached := true, queue := [] } := hr
+      rcases fill_spec x.store hl a (x.store.head + 1 - x.s.next) _ (x.store.head + 1) hr1 with h1 | h1
+      · obtain ⟨r1, r2, r3, _⟩ := h1
+        exact trInv_of_run a r1 (by rw [r3]; exact hf) (by rw [r2]; rfl)
+      · obtain ⟨r1, r2, r3⟩ := h1
+        exact trInv_of_done a r1 (by rw [r3]; exact hf) _ r2
+    · exact h
+  | deliver =>
+    refine ⟨?_, hl⟩
+    simp only [Sys.step, Strm.deliver]
+    split
+    · rename_i hp
+      obtain ⟨a, hr, hf⟩ := trInv_active h (by simp [hp, Phase.active])
+      split
+      · exact h
+      · exact trInv_emit _ hl _ _ a hr hf (by simp [hp, Phase.active])
+      · exact trInv_end h _ rfl rfl rfl
+    · exact h
+  | replaced =>
+    refine ⟨?_, hl⟩
+    simp only [Sys.step, Strm.replaced]
+    split
+    · exact trInv_congr h rfl rfl rfl rfl
+    · exact h
+  | detached => exact ⟨trInv_congr h rfl rfl rfl rfl, hl⟩
+  | cancel =>
+    refine ⟨?_, hl⟩
+    simp only [Sys.step, Strm.cancel]
+    split
+    · exact h
+    · split
+      · exact trInv_end h _ rfl rfl rfl
+      · split
+        · exact trInv_end h _ rfl rfl rfl
+        · exact trInv_end h _ rfl rfl rfl
+    · exact trInv_end h _ rfl rfl rfl
+  | sendFail =>
+    refine ⟨?_, hl⟩
+    simp only [Sys.step, Strm.sendFail]
+    split
+    · exact trInv_end h _ rfl rfl rfl
+    · split
+      · exact h
+      · exact trInv_end h _ rfl rfl rfl
+      · exact trInv_end h _ rfl rfl rfl
+    · exact h
+
+private theorem fill_frm (st : Store) : ∀ (k : Nat) (s : Strm) (upTo : Nat), (fill st s k upTo).frm = s.frm := by
+  intro k
+  induction k with
+  | zero => intro s upTo; rfl
+  | succ k ih =>
+    intro s upTo
+    simp only [fill]
+    split
+    · split
+      · rw [ih]
+      · rfl
+    · rfl
+
+private theorem emit_frm (h : Handover) (st : Store) (s : Strm) (b : Beacon) : (emit h st s b).frm = s.frm := by
+  cases h with
+  | asIs => rfl
+  | tracked =>
+    simp only [emit]
+    split
+    · rfl
+    · split
+      · exact fill_frm _ _ _ _
+      · exact fill_frm _ _ _ _
+
+/-- no step changes the round a stream was asked to start from -/
+theorem frm_step (h : Handover) (x : Sys) (e : Ev) : (Sys.step h x e).s.frm = x.s.frm := by
+  cases e with
+  | put b => simp only [Sys.step, Strm.onPut]; split <;> rfl
+  | start =>
+    simp only [Sys.step, Strm.start]
+    split
+    · split
+      · rfl
+      · split
+        · rfl
+        · split <;> rfl
+    · rfl
+  | scanOpen =>
+    simp only [Sys.step, Strm.scanOpen]
+    split
+    · split
+      · split
+        · exact emit_frm _ _ _ _
+        · rfl
+      · split
+        · exact emit_frm _ _ _ _
+        · rfl
+    · rfl
+  | scanNext =>
+    simp only [Sys.step, Strm.scanNext]
+    split
+    · split
+      · exact emit_frm _ _ _ _
+      · rfl
+    · split
+      · split
+        · exact emit_frm _ _ _ _
+        · rfl
+      · rfl
+    · rfl
+  | register =>
+    simp only [Sys.step, Strm.register]
+    split
+    · cases h with
+      | asIs => rfl
+      | tracked => exact fill_frm _ _ _ _
+    · rfl
+  | deliver =>
+    simp only [Sys.step, Strm.deliver]
+    split
+    · split
+      · rfl
+      · exact emit_frm _ _ _ _
+      · rfl
+    · rfl
+  | replaced => simp only [Sys.step, Strm.replaced]; split <;> rfl
+  | detached => rfl
+  | cancel =>
+    simp only [Sys.step, Strm.cancel]
+    split
+    · rfl
+    · split
+      · rfl
+      · split <;> rfl
+    · rfl
+  | sendFail =>
+    simp only [Sys.step, Strm.sendFail]
+    split
+    · rfl
+    · split
+      · rfl
+      · cases h <;> rfl
+      · rfl
+    · rfl
+
+/-- **C11, corrected variant: exact for every schedule.** With the tracked hand-over, whatever the interleaving of
+appends (legal or not), scan steps, registration, deliveries and environment actions, on bolt and on memdb (full ring or
+not): the rounds handed to the client are a, a+1, a+2, … — no gap, no repeat — and a is the requested round r when r ≠ 0. -/
+theorem c11_exact_tracked (x : Sys) (hl : StoreLab x.store) (hidle : match x.s.phase with | .idle => True | _ => False)
+    (hsent : x.s.sent = []) (es : List Ev) :
+    ∃ a, roundsOf (Sys.run .tracked x es).s.sent = List.range' a (Sys.run .tracked x es).s.sent.length ∧
+      (x.s.frm ≠ 0 → (Sys.run .tracked x es).s.sent ≠ [] → a = x.s.frm) := by
+  have h0 : TrInv x.s := by
+    refine ⟨0, by simp [hsent, roundsOf], by simp [hsent], ?_⟩
+    cases hp : x.s.phase <;> simp [hp] at hidle ⊢; exact hsent
+  have key : ∀ (es : List Ev) (x : Sys), StoreLab x.store → TrInv x.s →
+      TrInv (Sys.run .tracked x es).s ∧ (Sys.run .tracked x es).s.frm = x.s.frm := by
+    intro es
+    induction es with
+    | nil => intro x _ h; exact ⟨h, rfl⟩
+    | cons e es ih =>
+      intro x hl h
+      have h1 := trInv_step x hl e h
+      have h2 := ih _ h1.2 h1.1
+      refine ⟨h2.1, ?_⟩
+      simp only [Sys.run, List.foldl_cons] at h2 ⊢
+      rw [h2.2]
+      exact frm_step _ _ _
+  obtain ⟨⟨a, h1, h2, _⟩, h3⟩ := key es x hl h0
+  exact ⟨a, h1, by rw [h3] at h2; exact h2⟩
+
+
+-- non-vacuity: on the schedules of the two counterexamples the corrected variant delivers without a gap
+example : roundsOf (Sys.run .tracked ⟨boltOf 2, { frm := 1 }⟩
+    [.start, .scanOpen, .put (tb 3), .scanNext, .scanNext, .register, .put (tb 4), .deliver]).s.sent = [1, 2, 3, 4] := by decide
+example : roundsOf (Sys.run .tracked ⟨memOf 10 9, { frm := 5 }⟩
+    [.start, .scanOpen, .put (tb 10), .scanNext, .scanNext, .scanNext, .scanNext, .scanNext, .register]).s.sent = [5, 6, 7, 8, 9, 10] := by decide
+
 end Drand.Beacon.Stream
